@@ -59,7 +59,7 @@ void build_keys()
         add(g_keys_full, o + EncodeSecret(a), true, false, false, false, false);
         add(g_keys_full, o + HexStr(b.GetPubKey()), false, false, true, false, false);
         add(g_keys_full, o + EncodeSecret(b), true, false, true, false, false);
-        for (const std::string& path : {"", "/0", "/1h", "/0'/1", "/*", "/*h", "/<0;1>/*", "/2147483647/*", "/<2h;3>/0/*'"}) {
+        for (const std::string& path : {"", "/0", "/1h", "/0'/1", "/*", "/*h", "/<0;1>/*", "/2147483647/*", "/<2h;3>/0/*'", "/5'/*'"}) {
             const bool ranged = path.find('*') != std::string::npos, mp = path.find('<') != std::string::npos;
             add(g_keys_full, o + XPUB + path, false, true, false, ranged, mp);
             add(g_keys_full, o + XPRV + path, true, true, false, ranged, mp);
